@@ -48,6 +48,26 @@ CHECKS = {
    text="For every input the real tokenizer is run option-free and under each of the 128 option sets; the monitor checks that the option run is exactly the option-free stream with Unknown/Comment/end-of-input tokens removed iff their skip option is on, whitespace runs reduced to one token iff skip-whitespaces is on, and only the permitted rewrites (single blank, Number type, reference-decoded strings) applied; hook H1 turns a non-advancing main loop into an observation. Inputs: 41 hand-written patterns with skipped kinds between others, every string up to length 2/3 over a 20-character alphabet, random fragment concatenations, generated lexeme sequences.",
    note="Which whitespace token of a run survives skip-whitespaces is not prescribed by the statement and not asserted. One known finding (mustache, Unknown token inside a tag) is listed in known_findings.json.",
    ref="DESIGN.md §3 C15"),
+ "C06": dict(
+   technique="runtime monitor: host-arithmetic reference table compared with every operator result over all ordered pairs of a boundary value pool, both managers",
+   text="All 21 operators of both operation managers are executed on all ordered pairs of an 88-value boundary pool (every variant type; extremes, zero, negatives, NaN/Inf, empty and non-ASCII strings, zones, nested arrays) and on seeded random pairs; the monitor compares type and value with a host-arithmetic table written per (operator, type) in the harness, requires errors for division by zero, negative shifts, out-of-range indexes and unsupported types, checks Null propagation, operand immutability and the mutual consistency of the six comparisons.",
+   note="The second operand is converted with the manager's own Convert (checked by C07); Go's math/time are trusted. Don't-care zones: shift counts >= 64, equality of Object/Array values, equality with Null (only consistency), NOT of Null, IN over arrays with incomparable elements.",
+   ref="DESIGN.md §3 C06"),
+ "C07": dict(
+   technique="runtime monitor: structural result-type check, round-trip identity and safe/unsafe differential over pool x 11 targets x 2 managers",
+   text="Convert is executed for every value of the boundary pool and for seeded random values against all 11 target types under both managers; the monitor checks exactly-one-of result/error, the requested result type (unchanged value for Object/own type), the type-safe whitelist and its agreement with the type-unsafe manager, operand immutability, and every defined lossless round-trip chain (integer/long/double/float, boolean, time span in ms, date-time in Unix seconds, strings).",
+   note="Target type Null, text formats and lossy narrowing values are don't-care.",
+   ref="DESIGN.md §3 C07"),
+ "C08": dict(
+   technique="runtime monitor: reference table of the 37 default functions compared with direct calls and calls through real expressions, both managers",
+   text="Every default function is looked up in three spellings and called with every argument list of length 0-1 over the boundary pool, length 2 over a 30-value sub-pool and seeded lists of length 3-8, directly and through a parsed expression with the arguments bound to variables, under both managers; a reference table (arity; folds with the manager's comparisons; selection; bit-exact math.*; type-preserving Abs; time construction; clock functions by ordering around the call; Rnd range) decides value, type and error-ness; (nil,nil) is never accepted.",
+   note="Reference bodies use Go's math/time/strings and the manager's Convert/More/Less/Add (C06/C07). Don't-care: Choose with selector 0, Empty of empty string/array, Trunc beyond the long range, Abs of the minimum integer, unit of the 7th Date argument (ns or ms), unit of Ticks.",
+   ref="DESIGN.md §3 C08"),
+ "C20": dict(
+   technique="runtime monitor: variant value model driven in lock-step with the real variants over exhaustive and random operation sequences, all live variants observed after every step",
+   text="Every sequence of 4 (quick) / 5 (thorough) operations over 34 concrete operations on live variants and a caller-side list (construct, SetAsArray, VariantFromArray, Assign, Clone, NewVariant(variant), SetByIndex at 0/len/len+2, SetLength, Clear, SetAsInteger, caller-side list mutation), and random sequences up to 40 over 62 operations, are applied to real variants and to a value model; after every step all live variants are read back and Equals is evaluated on all pairs (total, symmetric, equal to model equality, clone equals original). A host-value sub-check covers all 15 Go host types at boundary values.",
+   note="Aliasing created by Assign of an array, in-place mutation of element variants, shrinking SetLength and Equals of date-times are don't-care.",
+   ref="DESIGN.md §3 C20"),
 }
 
 NOT_YET = {}
